@@ -189,11 +189,11 @@ fn body_size() -> impl Strategy<Value = usize> {
 
 fn req(h2: bool) -> impl Strategy<Value = Req> {
     let phase = if h2 {
-        prop_oneof![3 => Just(Phase::PartialBody), 3 => Just(Phase::BackendWaiting), 3 => Just(Phase::ResponseInProgress), 2 => Just(Phase::Idle)].boxed()
+        prop_oneof![3 => Just(Phase::PartialBody), 3 => Just(Phase::BackendWaiting), 3 => Just(Phase::ResponseInProgress), 2 => Just(Phase::Idle), 2 => Just(Phase::ClientStalled)].boxed()
     } else {
         prop_oneof![3 => Just(Phase::PartialBody), 3 => Just(Phase::BackendWaiting), 3 => Just(Phase::ResponseInProgress), 2 => Just(Phase::Expect100), 1 => Just(Phase::Idle), 1 => Just(Phase::ClientStalled)].boxed()
     };
-    (phase, body_size(), body_size(), any::<u16>(), any::<u8>(), 2u8..=8, any::<bool>(), any::<bool>()).prop_map(|(phase, req_body, resp_body, d, cut, pieces, chunked_resp, has_body)| {
+    (phase, body_size(), body_size(), any::<u16>(), any::<u8>(), 2u8..=8, any::<bool>(), any::<bool>()).prop_map(move |(phase, req_body, resp_body, d, cut, pieces, chunked_resp, has_body)| {
         let span = |lo: u16, hi: u16| lo + (d as u32 * (hi - lo) as u32 / 65_535) as u16;
         let delay_ms = match phase {
             Phase::PartialBody => span(0, 300),
@@ -210,6 +210,8 @@ fn req(h2: bool) -> impl Strategy<Value = Req> {
         };
         let resp_body = match phase {
             Phase::ResponseInProgress => resp_body.max(64),
+            // HTTP/2: the whole response fits sozu's stream buffer and exceeds the window the client grants (4000)
+            Phase::ClientStalled if h2 => 4_100 + resp_body % 9_000,
             Phase::ClientStalled => 6_000_000 + resp_body * 90,
             _ => resp_body,
         };
@@ -229,7 +231,15 @@ fn opaque(ws: bool) -> impl Strategy<Value = Opaque> {
 
 fn session() -> impl Strategy<Value = Session> {
     prop_oneof![
-        4 => (any::<bool>(), prop::collection::vec(req(true), 1..=3), prop::bool::weighted(0.3), any::<bool>()).prop_map(|(h2c, streams, late_stream, client_closes)| Session::H2 { h2c, streams, late_stream, client_closes }),
+        4 => (any::<bool>(), prop::collection::vec(req(true), 1..=3), prop::bool::weighted(0.3), any::<bool>()).prop_map(|(h2c, mut streams, late_stream, client_closes)| {
+            // a stream whose response waits for flow-control credit is alone on its connection (the small window
+            // is a connection setting), toward the HTTP/1.1 backend, which has written the whole response and is done
+            if let Some(st) = streams.iter().find(|r| r.phase == Phase::ClientStalled).cloned() {
+                streams = vec![st];
+                return Session::H2 { h2c: false, streams, late_stream: false, client_closes };
+            }
+            Session::H2 { h2c, streams, late_stream, client_closes }
+        }),
         3 => (prop::bool::weighted(0.3), req(false)).prop_map(|(warm, req)| Session::H1 { tls: true, warm, req }),
         1 => (prop::bool::weighted(0.3), req(false)).prop_map(|(warm, req)| Session::H1 { tls: false, warm, req }),
         2 => opaque(false).prop_map(Session::Tcp),
@@ -1440,14 +1450,14 @@ impl Write for TlsIo {
 
 type H2C = H2Conn<TlsIo>;
 
-fn h2_open(addr: SocketAddr, host: &str) -> Result<H2C, String> {
+fn h2_open(addr: SocketAddr, host: &str, settings: Settings) -> Result<H2C, String> {
     let (tls, _) = h2::tls_connect(addr, host, &["h2"]).map_err(|e| format!("TLS connect: {e}"))?;
     if tls.conn.alpn_protocol() != Some(b"h2") {
         return Err(format!("ALPN negotiated {:?}, wanted h2", tls.conn.alpn_protocol().map(String::from_utf8_lossy)));
     }
     let _ = tls.sock.set_read_timeout(Some(Duration::from_millis(5)));
     let rustls::StreamOwned { conn, sock } = tls;
-    let mut c = H2Conn::new(TlsIo { conn, sock, write_error: None }, false, Settings::default());
+    let mut c = H2Conn::new(TlsIo { conn, sock, write_error: None }, false, settings);
     c.start().map_err(|e| format!("send preface: {e}"))?;
     let deadline = Instant::now() + Duration::from_secs(5);
     loop {
@@ -1480,10 +1490,16 @@ fn run_h2_client(si: usize, addr: SocketAddr, sh: Arc<Shared>) {
             });
         }
     };
-    let mut c = match h2_open(addr, host) {
+    // a stream in phase ClientStalled: the client grants 4000 bytes per stream and no more until `delay_ms` after the stop
+    let stalled_until: Option<u64> = streams.iter().find(|r| r.phase == Phase::ClientStalled).map(|r| r.delay_ms as u64);
+    let settings = if stalled_until.is_some() { Settings { initial_window_size: 4000, ..Settings::default() } } else { Settings::default() };
+    let mut c = match h2_open(addr, host, settings) {
         Ok(c) => c,
         Err(e) => return fail_open(format!("before the stop: {e}")),
     };
+    if stalled_until.is_some() {
+        c.auto_window_update = false;
+    }
     let req_headers = |id: usize, k: usize, body_len: usize| -> Vec<(String, String)> {
         let mut hs = vec![
             (":method".to_string(), if body_len > 0 { "POST" } else { "GET" }.to_string()),
@@ -1557,6 +1573,11 @@ fn run_h2_client(si: usize, addr: SocketAddr, sh: Arc<Shared>) {
             H2Event::Timeout => {}
             H2Event::Eof => conn_end = Some("eof"),
             H2Event::Reset => conn_end = Some("reset"),
+        }
+        if let Some(d) = stalled_until {
+            if !c.auto_window_update && sh.due(d) {
+                c.go_auto();
+            }
         }
         c.replenish_open();
         for (k, r) in streams.iter().enumerate() {
@@ -2551,7 +2572,7 @@ fn verdict(case: &Case, sessions: &[Session], exchanges: &[(usize, usize, &'stat
 }
 
 pub fn rule() -> &'static str {
-    "one fresh live worker per scenario with an HTTP listener, an HTTPS listener (ALPN h2 + http/1.1, h2_graceful_shutdown_deadline_seconds = 5, sozu's default) and a TCP listener, all bound by the worker; clusters c0 (HTTP/1.1 mock backend), c1 (h2c mock backend), cws (HTTP/1.1 mock backend answering 101, then relaying opaque bytes), t0 (TCP relay backend); front/back/request timeouts 15 s, above anything a scenario does. 1..6 sessions of generated kinds, each brought into its phase and observed there before the stop: (H2) an HTTP/2 connection (TLS) toward c0 or c1 with 1..3 streams, each: HEADERS without END_STREAM and a part of the body sent, rest 0..300 ms after the stop [excluded, known finding]; request complete and the backend answering 100..800 ms after the stop; response head and first piece at the client, the other pieces over 200..900 ms after the stop; stream finished (all finished: idle connection); optionally one more stream opened as soon as the stop is acknowledged (its HEADERS cross the GOAWAY), and the client either closes once it holds a GOAWAY and has no open stream or waits for sozu; (TLS-H1 / H1) an HTTP/1.1 connection on the HTTPS or the plain listener in the phases of `softstop` (part of the body sent, backend waiting, response in progress, Expect: 100-continue, idle keep-alive, client stalled under a 6..12 MB response [HTTPS: excluded, known finding]), 30% second on their connection; (TCP) a session through the TCP listener after a first exchange: the client's message (2..40000 bytes) at the backend which answers 100..800 ms after the stop, or half of it at the backend, the other half 0..300 ms and the answer 100..800 ms after the stop (bytes under way in both directions), or idle; (WS / WSS) an HTTP/1.1 connection (plain or TLS) upgraded with 101 and exchanging WebSocket frames in the same three shapes, or the upgrade request itself at the backend which answers 101 100..800 ms after the stop. Then SoftStop, or (35%) ReturnListenSockets + receive_listeners + SoftStop. Oracle: (1) every HTTP/1.1 request, HTTP/2 stream and upgrade request in flight at the stop gets the backend's status (200 / 101) and exact body, HTTP/2 with END_STREAM and no RST_STREAM; the backend got the exact request body once, on its cluster's backend; delays stay below 1 s, far inside the 5 s graceful deadline, so the deadline never excuses a cut; (1b) an HTTP/2 connection with a stream open at the stop receives at least one GOAWAY before it ends (for an idle connection both a GOAWAY and a bare close are admitted; whether the GOAWAY precedes the end of the last stream is measured, not judged); (1c) the stream opened after the acknowledgement may be served (then 200 and exact body), answered by another status, refused (RST_STREAM, any code, before it reached a backend), or left unanswered if it never reached a backend; once it reached a backend it must not be reset or dropped; (2) SoftStop: 0..n Processing, exactly one final Ok, not read before the last backend began to write the last piece of an in-flight HTTP response; (3) the worker thread ends within graceful deadline + 2 s of the moment the last session ended on its client's side (clients of opaque sessions hang up by themselves at most 1.5 s after the last scheduled byte); (4) after the first acknowledgement a new connection to any of the three listeners is refused or gets no byte back (HTTP request, TLS ClientHello, TCP bytes) and nothing of it reaches a backend; with a hand-over the three listeners come out of the SCM socket with their kind and address, accept, and are never refused; (5) no worker panic. (6) Opaque sessions (TCP, upgraded connections): the property speaks of requests, an opaque byte stream has none, and sozu documents that such a session is closed at once by a soft stop: closing it at the stop and relaying on are both admitted, as are FIN, RST or a TLS end without close_notify toward the client; demanded is only that each peer receives an exact prefix of what the other sent (nothing altered, duplicated or reordered) and that, when both peers see an orderly end (FIN / close_notify, no reset, no write error), every byte a peer had written before the SoftStop command was sent has arrived at the other (bytes written later may meet a session already closed and prove nothing). How each side saw the end is recorded as classes. A failure is re-run twice on fresh workers and reported only if it reproduces (else flaky_unconfirmed). Non-trivial: at least one session had an unfinished request / stream / pending answer when the stop was acknowledged."
+    "one fresh live worker per scenario with an HTTP listener, an HTTPS listener (ALPN h2 + http/1.1, h2_graceful_shutdown_deadline_seconds = 5, sozu's default) and a TCP listener, all bound by the worker; clusters c0 (HTTP/1.1 mock backend), c1 (h2c mock backend), cws (HTTP/1.1 mock backend answering 101, then relaying opaque bytes), t0 (TCP relay backend); front/back/request timeouts 15 s, above anything a scenario does. 1..6 sessions of generated kinds, each brought into its phase and observed there before the stop: (H2) an HTTP/2 connection (TLS) toward c0 or c1 with 1..3 streams, each: HEADERS without END_STREAM and a part of the body sent, rest 0..300 ms after the stop [excluded, known finding]; request complete and the backend answering 100..800 ms after the stop; response head and first piece at the client, the other pieces over 200..900 ms after the stop; stream finished (all finished: idle connection); a stream alone on its connection whose whole response (4100..13100 bytes) the HTTP/1.1 backend has written while the client grants 4000 bytes of stream window and no more until 50..600 ms after the stop (the rest waits in sozu, the backend is done); optionally one more stream opened as soon as the stop is acknowledged (its HEADERS cross the GOAWAY), and the client either closes once it holds a GOAWAY and has no open stream or waits for sozu; (TLS-H1 / H1) an HTTP/1.1 connection on the HTTPS or the plain listener in the phases of `softstop` (part of the body sent, backend waiting, response in progress, Expect: 100-continue, idle keep-alive, client stalled under a 6..12 MB response [HTTPS: excluded, known finding]), 30% second on their connection; (TCP) a session through the TCP listener after a first exchange: the client's message (2..40000 bytes) at the backend which answers 100..800 ms after the stop, or half of it at the backend, the other half 0..300 ms and the answer 100..800 ms after the stop (bytes under way in both directions), or idle; (WS / WSS) an HTTP/1.1 connection (plain or TLS) upgraded with 101 and exchanging WebSocket frames in the same three shapes, or the upgrade request itself at the backend which answers 101 100..800 ms after the stop. Then SoftStop, or (35%) ReturnListenSockets + receive_listeners + SoftStop. Oracle: (1) every HTTP/1.1 request, HTTP/2 stream and upgrade request in flight at the stop gets the backend's status (200 / 101) and exact body, HTTP/2 with END_STREAM and no RST_STREAM; the backend got the exact request body once, on its cluster's backend; delays stay below 1 s, far inside the 5 s graceful deadline, so the deadline never excuses a cut; (1b) an HTTP/2 connection with a stream open at the stop receives at least one GOAWAY before it ends (for an idle connection both a GOAWAY and a bare close are admitted; whether the GOAWAY precedes the end of the last stream is measured, not judged); (1c) the stream opened after the acknowledgement may be served (then 200 and exact body), answered by another status, refused (RST_STREAM, any code, before it reached a backend), or left unanswered if it never reached a backend; once it reached a backend it must not be reset or dropped; (2) SoftStop: 0..n Processing, exactly one final Ok, not read before the last backend began to write the last piece of an in-flight HTTP response; (3) the worker thread ends within graceful deadline + 2 s of the moment the last session ended on its client's side (clients of opaque sessions hang up by themselves at most 1.5 s after the last scheduled byte); (4) after the first acknowledgement a new connection to any of the three listeners is refused or gets no byte back (HTTP request, TLS ClientHello, TCP bytes) and nothing of it reaches a backend; with a hand-over the three listeners come out of the SCM socket with their kind and address, accept, and are never refused; (5) no worker panic. (6) Opaque sessions (TCP, upgraded connections): the property speaks of requests, an opaque byte stream has none, and sozu documents that such a session is closed at once by a soft stop: closing it at the stop and relaying on are both admitted, as are FIN, RST or a TLS end without close_notify toward the client; demanded is only that each peer receives an exact prefix of what the other sent (nothing altered, duplicated or reordered) and that, when both peers see an orderly end (FIN / close_notify, no reset, no write error), every byte a peer had written before the SoftStop command was sent has arrived at the other (bytes written later may meet a session already closed and prove nothing). How each side saw the end is recorded as classes. A failure is re-run twice on fresh workers and reported only if it reproduces (else flaky_unconfirmed). Non-trivial: at least one session had an unfinished request / stream / pending answer when the stop was acknowledged."
 }
 
 /// child-process entry: run this shard's scenarios
